@@ -506,8 +506,59 @@ fn repair_case(_ctx: &Ctx, case: u64, r: &mut Rng, rep: &mut Report) {
         let mut g = h.uni.lock();
         let _ = g.stores[0].del(FileType::Pack, &victim);
     }
+    // how many files of each snapshot really depend on a lost data blob (raw walk of the trees before the damage)
+    fn files_touching(rk: &crate::rawrepo::RawKey, st: &crate::store::StoreState, view: &crate::rawrepo::IndexView, tree: &Id, lost: &BTreeSet<Id>) -> Result<usize, String> {
+        let data = crate::rawrepo::read_blob(rk, st, view, "tree", tree)?;
+        let v: serde_json::Value = serde_json::from_slice(&data).map_err(|e| e.to_string())?;
+        let mut n = 0;
+        for node in v["nodes"].as_array().cloned().unwrap_or_default() {
+            if let Some(sub) = node["subtree"].as_str() {
+                n += files_touching(rk, st, view, &sub.parse::<Id>().map_err(|_| "bad id".to_string())?, lost)?;
+            }
+            if let Some(c) = node["content"].as_array() {
+                if c.iter().any(|b| b.as_str().and_then(|x| x.parse::<Id>().ok()).is_some_and(|id| lost.contains(&id))) {
+                    n += 1;
+                }
+            }
+        }
+        Ok(n)
+    }
+    let mut may_be_marked: BTreeMap<Id, usize> = BTreeMap::new();
+    if !victim_is_tree {
+        for (sid, (snap, _)) in &before {
+            if let Ok(n) = files_touching(&rk, &st, &view, &snap.tree, &lost_blobs) {
+                let _ = may_be_marked.insert(*sid, n);
+            }
+        }
+    }
     let _ = (Cmd::RepairIndex { read_all: false, dry_run: false }).run(&h.env);
     let detail = json!({"config": h.cfg.desc, "lost_pack": victim.to_hex().to_string(), "lost_pack_type": if victim_is_tree { "tree" } else { "data" }, "blobs_lost": lost_blobs.len()});
+    // repair_index keeps what is healthy: every other pack that is still in storage stays indexed with the same blobs
+    {
+        let st2 = h.uni.state(0);
+        match index_view(&rk, &st2) {
+            Err(e) => rep.violation(case, "repair-index:index-unreadable", e, detail.clone()),
+            Ok(v2) => {
+                for (pid, p) in &view.packs {
+                    if *pid == victim || !st2.has(FileType::Pack, pid) {
+                        continue;
+                    }
+                    match v2.packs.get(pid) {
+                        None => {
+                            rep.violation(case, "repair-index:dropped-healthy-pack", format!("pack {pid} is intact and was indexed, but is no longer listed after repair_index"), detail.clone());
+                            break;
+                        }
+                        Some(q) if q.blobs != p.blobs => {
+                            rep.violation(case, "repair-index:changed-healthy-pack", format!("the index entry of intact pack {pid} changed"), detail.clone());
+                            break;
+                        }
+                        _ => {}
+                    }
+                }
+                rep.count("healthy_packs_compared_after_repair_index", view.packs.len().saturating_sub(1) as u64);
+            }
+        }
+    }
     rep.evaluations += 1;
     match (Cmd::RepairSnapshots { delete: true, dry_run: false }).run(&h.env) {
         Err(p) => {
@@ -538,6 +589,14 @@ fn repair_case(_ctx: &Ctx, case: u64, r: &mut Rng, rep: &mut Report) {
         // the original of this snapshot
         let orig_id: Id = snap.original.map_or(*id, |o| *o);
         let Some((_, Ok(orig))) = before.get(&orig_id) else { continue };
+        // no more files are given up than depended on a lost blob
+        if let Some(allowed) = may_be_marked.get(&orig_id) {
+            let marked = obs.keys().filter(|k| k.last().is_some_and(|n| n.ends_with(b".repaired"))).count();
+            let missing = orig.iter().filter(|(k, e)| matches!(e.kind, Kind::File(_)) && !obs.contains_key(*k)).count();
+            if marked > *allowed || missing > *allowed {
+                rep.violation(case, "repair:gave-up-healthy-files", format!("snapshot {id}: {marked} files marked .repaired / {missing} original files absent, but only {allowed} file(s) used a blob of the lost pack"), detail.clone());
+            }
+        }
         for (k, e) in obs {
             let name = k.last().unwrap();
             if name.ends_with(b".repaired") {
@@ -583,7 +642,7 @@ pub fn run(ctx: &Ctx) -> (Report, Meta) {
     }
     let meta = Meta {
         level: "exploration",
-        rule: "copy: generated source and destination repositories with different keys/configs (destination empty / holding part of the content / unrelated content; tree-data id collisions), every copied snapshot must read back identically in the destination, destination check(read_data) clean, second copy writes nothing. merge: 2-4 snapshots of diverging generated trees (names incl. escaped bytes and invalid UTF-8) merged with last_modified_node vs a reference merge on models (newest wins, directories merged), result strictly name-ordered, inputs untouched; cases with equal-mtime ties between different versions are skipped as ambiguous. rewrite: excluding globs in three forms (!/r/a/b anchored literal, !*.tmp base-name suffix, !/r/dir whole directory) vs (model minus excluded paths), forget on/off, original snapshot kept/removed accordingly. repair snapshots: undamaged => zero storage events; after losing a pack + repair_index => every file kept without the .repaired suffix has its original bytes, all snapshots readable, check clean. distinct_nontrivial = distinct class labels per sub-check".to_string(),
+        rule: "copy: generated source and destination repositories with different keys/configs (destination empty / holding part of the content / unrelated content; tree-data id collisions), every copied snapshot must read back identically in the destination, destination check(read_data) clean, second copy writes nothing. merge: 2-4 snapshots of diverging generated trees (names incl. escaped bytes and invalid UTF-8) merged with last_modified_node vs a reference merge on models (newest wins, directories merged), result strictly name-ordered, inputs untouched; cases with equal-mtime ties between different versions are skipped as ambiguous. rewrite: excluding globs in three forms (!/r/a/b anchored literal, !*.tmp base-name suffix, !/r/dir whole directory) vs (model minus excluded paths), forget on/off, original snapshot kept/removed accordingly. repair snapshots: undamaged => zero storage events; after losing a pack + repair_index => every intact pack is still indexed with the same blobs, no more files are given up than used a blob of the lost pack, every file kept without the .repaired suffix has its original bytes, all snapshots readable, check clean. distinct_nontrivial = distinct class labels per sub-check".to_string(),
         exhaustive: false,
         assumptions: vec!["rewrite patterns use a glob-neutral alphabet for literals; whitelist patterns, character classes and escapes are not generated".to_string()],
     };
